@@ -41,6 +41,12 @@ def cases(tier, rng):
     # anchors: witnesses of earlier findings that random sampling reaches too rarely (F-23: a massive kernel whose partonic
     # threshold falls inside one integration sub-interval in the unlucky way)
     out = json.loads((pathlib.Path(__file__).parent / "c01_anchors.json").read_text())
+    # anchor for the open finding F-26: entries silently set to 0 where a dependency overflows (x = 1e-6 at Q2/m2 ~ 1e6); only the
+    # zeroing probe is judged there (the independent quadrature meets the same overflow and has no value to offer)
+    gz = dict(xgrid=cards.grid(6, 4, x_min=1e-7), deg=3, is_log=True)
+    for k_, (kind_, proc_) in enumerate((("FL", "EM"), ("F3", "NC"))):
+        out.append(dict(id=f"c01-anchor-zeroed{k_}", kind=kind_, heavy="light", grid=gz, points=[dict(x=1e-6, Q2=2.0e6, cls="lowest")], probe_only=True,
+                        pdf=pdfs.SpanPDF.random(rng, 3, True), theory=dict(PTO=2, FNS="FFNS", NfFF=3), obs=dict(prDIS=proc_, ProjectileDIS="electron"), kinds=[kind_]))  # fmt: skip
     for i in range(n):
         ptos = (0, 1, 1, 2, 2, 3) if tier == "thorough" else (0, 1, 1, 2, 3)
         cfg = cards.rand_config(rng, ptos=ptos, sv=(i % 5 == 0))
@@ -98,18 +104,49 @@ def run_case(case):
         rec[id(self.esf)] = (self.esf, list(elems))
         return elems
 
+    # the runner replaces non-finite entries by 0 before handing the output over (documented workaround for a dependency that
+    # overflows at huge eta): an entry set to 0 that way is not the convolution any more, so the replacement is counted here
+    import yadism.runner as yrunner
+
+    zeroed = []
+    orig_clean = yrunner.Runner.replace_nans_with_0
+
+    def clean_spy(self, o_):
+        for nm, pts_ in o_.items():
+            if isinstance(pts_, list):
+                for ip_, r_ in enumerate(pts_):
+                    for ok_, (v_, _e) in getattr(r_, "orders", {}).items():
+                        nbad = int(np.sum(~np.isfinite(np.asarray(v_))))
+                        if nbad:
+                            zeroed.append((nm, ip_, tuple(int(t) for t in ok_), nbad, int(np.asarray(v_).size)))
+        return orig_clean(self, o_)
+
     cf.Combiner.collect_elems = spy
+    yrunner.Runner.replace_nans_with_0 = clean_spy
     try:
         runner = yad.Runner(th, ob)
         out = runner.get_result()
     finally:
         cf.Combiner.collect_elems = orig
+        yrunner.Runner.replace_nans_with_0 = orig_clean
     interp = run.interpolator(ob)
     nodes = list(g["xgrid"])
     pdf = pdfs.make(case["pdf"])
     viol, nontrivial, classes = [], set(), set()
     compared, margin, sample = 0, 0.0, None
-    probes = dict(collect_elems=len(rec), kernels=0, oracle_integrals=0)
+    probes = dict(collect_elems=len(rec), kernels=0, oracle_integrals=0, zeroed_nonfinite_entries=sum(z[3] for z in zeroed))
+    mq = nfref.massive_quarks(th)
+    for nm, ip_, ok_, nbad, size in zeroed:
+        p_ = case["points"][ip_]
+        m2min = min(({4: th["mc"], 5: th["mb"], 6: th["mt"]}[h] ** 2 for h in mq), default=None)
+        etamax = None if m2min is None else p_["Q2"] / m2min * (1.0 - p_["x"]) / (4.0 * p_["x"])
+        region = "nomass" if etamax is None else ("etamax>=5e9" if etamax >= 5e9 else "etamax<5e9")
+        viol.append(dict(sig=f"nonfinite-zeroed|{case['kind']}|{case['heavy']}|{case['obs']['prDIS']}|o{ok_[0]}|{region}",
+                         what=f"{nm} {case['obs']['prDIS']} {th['FNS']} PTO={th['PTODIS']} x={p_['x']:.4g} Q2={p_['Q2']:.5g}: {nbad} of {size} entries of order {ok_} were non-finite after the convolution and "
+                              f"were returned as 0 by Runner.replace_nans_with_0 (max eta of the lightest massive quark {etamax if etamax is None else format(etamax, '.3g')})"))  # fmt: skip
+    if case.get("probe_only"):
+        return dict(violations=viol, compared=len(zeroed) + 1, nontrivial=[f"zeroing-probe|{name}|{th['FNS']}"], classes=["zeroing-probe"], probes=probes,
+                    sample=dict(obs=name, points=pts, zeroed=[dict(order=list(z[2]), entries=z[3]) for z in zeroed]))  # fmt: skip
     if not rec:
         return dict(status="inconclusive", reason="probe-missing:Combiner.collect_elems", probes=probes)
     massive = nfref.massive_quarks(th)
